@@ -133,7 +133,7 @@ func Open(spec dbh.Spec) (*dbh.Inst, error) {
 		return nil, err
 	}
 	cfg := spec.Config()
-	in := &dbh.Inst{Spec: spec, Roots: cfg.Storage.RootDirs, DBPath: cfg.Storage.DbPath, DB: db}
+	in := &dbh.Inst{Spec: spec, Roots: spec.CanonRoots(), DBPath: cfg.Storage.DbPath, DB: db}
 	in.CloseFn = func() error {
 		db.Close()
 		return srv.Stop()
